@@ -20,6 +20,10 @@ CLAIMED = {
     text="writeForever is verified from source under a rely that lets the storing thread act and the stop arrive between any two atomic steps of the writer (including inside time.sleep): on return nothing accepted before the stop is left behind unless the final pass was cut short by a logged backend failure; shutdownModifyUpdateSpeed's postcondition and the shutdown wiring are obligations.",
     note="A-TWISTED-DEFER (running turns False once, the reactor thread is quiescent afterwards, before-shutdown triggers run first), contract of writeCachedDataPoints (normal return = nothing eligible left) from the iteration unit, timesorted 'eligible' from C17; ghost flags running/dirty abstract the cache contents; A-ENGINE, A-SMT",
     tech=TECH + "; ghost state + rely/guarantee over the stop event"),
+  'C05': dict(
+    text="ConsistentHashRing.get_nodes (ring walk with a quantified loop invariant and the pigeonhole exit argument), ConsistentHashingRouter.getDestinations (both branches, loop contracts with ghost first-occurrence witnesses), FastHashRing.get_nodes and _update_nodes are verified from source for every ring, node set, key, replication factor and DIVERSE_REPLICAS value: the result is duplicate-free, consists only of configured destinations with their configured port, has exactly min(RF, eligible) elements and no two share a server when diverse.",
+    note="bisect_left / sorted / set and list models and three finite-set cardinality lemmas are assumed (A-LIB); the ring position is an uninterpreted function of the key (pinned in C06), which is also what makes the result a function of (ring, key); I_ring / I_router / I_fast are preconditions established by add/remove (C06); aggregated routers are C16; A-ENGINE, A-SMT",
+    tech=TECH + "; inductive loop invariants over a symbolic ring, ghost witnesses"),
   'C10': dict(
     text="_MetricCache.store is verified from source for every cache state, datapoint and limit setting: size never exceeds CACHE_SIZE_HARD_MAX, a refusal fires cacheOverflow exactly once and leaves the whole view (keys, contents, new_metrics, size) unchanged, a duplicate timestamp is updated even when full. conf.py's derivation of the limits and events.py's handlers are checked syntactically.",
     note="store's body is one lock region (A-GIL); MAX_CACHE_SIZE is +inf or a real >= 1; events modelled by their default handlers; bucketmax store() is covered in C17; A-ENGINE, A-SMT",
